@@ -169,8 +169,9 @@ PROPS["C09"] = {
          "forms": ["key", "intkey", "fltkey", "strkey", "cond_int", "cond_int_rev", "cond_flt", "cond_flt_rev",
                    "cond_int_fields", "cond_flt_fields", "cond_str_fields"], "workers": 8},
     ],
-    "gens": lambda tier: [{"topic": "num", "n": q(tier, 500, 20000)}, {"topic": "typ", "n": q(tier, 300, 6000)}],
-    "rules": ["oracle", "tri_oracle", "tri_both", "match_panic", "load_outcome"],
+    "gens": lambda tier: [{"topic": "num", "n": q(tier, 500, 20000)}, {"topic": "typ", "n": q(tier, 300, 6000)},
+                          {"topic": "identfuzz", "n": q(tier, 1500, 20000)}],
+    "rules": ["oracle", "tri_oracle", "tri_both", "match_panic", "load_outcome", "ident_parse", "ident_panic"],
     "chunk": 150,
 }
 
